@@ -19,6 +19,7 @@ LEVEL_TEXT = ("Each mechanism by which a fault could abort the build is a lemma 
               "returns any value of its type (the choice is a solver variable): front matter YAML (any YAMLError subclass / any JSON shape), front-matter overrides of every config field followed "
               "by the renderer's first use of the field, include with every file-system fault, inventory retrieval failures, slug-function failures, Jinja failures and circular substitutions, "
               "directive run() failures, Sphinx link probing with OSError; plus every document of up to N characters over a markup-soup alphabet through the full docutils pipeline. "
+              "Also: substitution graphs over key names incl. 'env' and Jinja globals (cycles behind nested blocks), and HTML snippets with valueless attributes / marked sections under every html extension combination. "
               "Obligation: a document (or node list) is returned and the fault is reported as a system message / warning.")
 LEVEL_NOTE = ("Composition of the lemmas into 'the whole pipeline is total' is an informal argument. markdown-it, docutils and Sphinx internals are trusted not to raise on the token streams/nodes MyST "
               "hands them, except where a soup document shows otherwise. Recursion depth (self-including files) is a known finding.")
